@@ -158,7 +158,7 @@ PROPS = {
     },
     "C09": {
         "level": "other",
-        "rules": [T.dedup_strings, T.state_tables, T.step_codes, S.constructors_and_writers, B.varints, E.error_sites,
+        "rules": [T.dedup_strings, T.state_tables, T.step_codes, S.constructors_and_writers, B.varints, E.error_sites, G.pairs_unify,
                   O.header_strings, D.validate],
         "thorough": [TH.generated_corpus, TH.feature_matrix(O.header_strings, E.error_sites, name="feature_matrix_strings")],
         "explanation": "Writer/reader protocol of the string table (T9: the first occurrence is exactly <String>::serialize, a "
@@ -172,7 +172,7 @@ PROPS = {
     },
     "C10": {
         "level": "other",
-        "rules": [T.ref_protocol, T.state_tables, S.constructors_and_writers, E.error_sites],
+        "rules": [T.ref_protocol, T.state_tables, S.constructors_and_writers, E.error_sites, D.validate],
         "explanation": "The library's obligations towards a user codec are the protocol clauses: first offer writes VarU32(0) and "
                        "returns true, later offers write the 1-based first-offer id through the context (so chunk buffering "
                        "applies) and return false; the reader maps 0 to `new object` and any other id through a checked lookup "
